@@ -161,7 +161,7 @@ CHECKS = {
    category='proof',
    text='Lean reference semantics of 23 BLAS routines on strided / leading-dimension views (hand-written from the BLAS definitions) with '
         'frame theorems (only the addressed output view changes, buffers keep their length) for all sizes, offsets, increments and flags; '
-        'documented defaults proved about the argument prefix generated from blas.c. The real wrappers are compared exactly (all arguments, '
+        'documented defaults proved about the argument prefix generated from blas.c; over a table regenerated from blas.c, every wrapper calls the BLAS routine of its own name (or a listed alias) with the type prefix of its case label. The real wrappers are compared exactly (all arguments, '
         'integer/Gaussian data, d and z) with the reference semantics applied to the integers produced by the generated prefix.',
    design_ref='DESIGN.md 5 C17',
    note='Trusted: Lean kernel, Model/BlasSpec.lean (the specification), cwrap2lean, the external BLAS kernel on exact data. Routines '
